@@ -1,2 +1,5 @@
--- stub driver for C05: replaced when the property's model exists
-def main : IO Unit := pure ()
+import Snel.Model.ShardProto
+import Snel.Model.Compact
+open Snel
+
+def main : IO Unit := Proto.serve (ShardProto.answerWith Shard.compactRound)
